@@ -1670,12 +1670,24 @@ pub fn run_rounds(
                     out.inconclusive.push(format!("round {gen_name} {s}: {what}"))
                 }
             }
-            Err(what) => out.violations.push(Violation {
-                property: prop.to_string(),
-                case: json!({"gen": gen_name, "case": i, "seed": seed}),
-                history: vec![format!("free-running round {gen_name}, round seed {s}, yield per mille {pm}")],
-                what,
-            }),
+            Err(what) => {
+                // an error may name the properties it belongs to: "[C06|C08] ..."
+                let mine = match what.strip_prefix('[').and_then(|r| r.split_once(']')) {
+                    Some((tags, _)) => tags.split('|').any(|t| t == prop),
+                    None => true,
+                };
+                if mine {
+                    out.violations.push(Violation {
+                        property: prop.to_string(),
+                        case: json!({"gen": gen_name, "case": i, "seed": seed}),
+                        history: vec![format!("free-running round {gen_name}, round seed {s}, yield per mille {pm}")],
+                        what,
+                    })
+                } else {
+                    out.ev.foreign += 1;
+                    out.ev.count("foreign_divergence_in_round");
+                }
+            }
         }
     });
     out.ev.add("pause_points_passed_in_free_mode", POINTS_HIT.load(AO::Relaxed) - pts0);
@@ -1769,11 +1781,15 @@ fn round_c08_threads(seed: u64, pm: u64) -> Result<(usize, usize), String> {
     let mut ob: ObservableVector<u64> = ObservableVector::with_capacity(cap);
     ob.append((0..rng.below(4) as u64).collect());
     let quiesce = Arc::new(Quiesce(AtomicBool::new(false)));
+    let writer_done = Arc::new(Quiesce(AtomicBool::new(false)));
+    let fin_slot: Slot<Vector<u64>> = slot();
     let mut hs = vec![];
     for k in 0..n_subs {
         let sub = ob.subscribe();
         let batched = rng.chance(1, 2);
         let q = quiesce.clone();
+        let wd = writer_done.clone();
+        let fs = fin_slot.clone();
         let sseed = mix(seed, 10 + k as u64);
         hs.push(std::thread::spawn(move || -> Result<(Vector<u64>, usize, usize), String> {
             set_free_mode(sseed, pm);
@@ -1795,7 +1811,7 @@ fn round_c08_threads(seed: u64, pm: u64) -> Result<(usize, usize), String> {
                 match r {
                     Poll::Ready(Some(ds)) => {
                         if ds.is_empty() {
-                            return Err(format!("subscriber {k} received an empty batch"));
+                            return Err(format!("[C07|C13] subscriber {k} received an empty batch"));
                         }
                         for d in ds {
                             if matches!(d, VectorDiff::Reset { .. }) {
@@ -1803,22 +1819,40 @@ fn round_c08_threads(seed: u64, pm: u64) -> Result<(usize, usize), String> {
                             }
                             let ok = std::panic::catch_unwind(std::panic::AssertUnwindSafe(|| d.apply(&mut replica)));
                             if ok.is_err() {
-                                return Err(format!("subscriber {k} received an inapplicable diff"));
+                                return Err(format!("[C05|C06|C08] subscriber {k} received an inapplicable diff"));
                             }
                             items += 1;
                         }
                     }
                     Poll::Ready(None) => break,
-                    Poll::Pending => loop {
-                        if flag.woken() {
-                            break;
+                    Poll::Pending => {
+                        let mut checked = false;
+                        loop {
+                            if flag.woken() {
+                                break;
+                            }
+                            if !checked && wd.get() && !flag.woken() {
+                                // the writer has finished and nothing woke this poll: it happened after the
+                                // last publication, so the stream is quiescent and the vector no longer
+                                // changes - the replica must equal its contents (C06)
+                                checked = true;
+                                let fin = fs.lock().unwrap().clone().unwrap();
+                                if replica != fin {
+                                    return Err(format!(
+                                        "[C06] subscriber {k} ({}) reports Pending after the writer finished, with replica {:?} but the vector holds {:?}",
+                                        if batched { "batched" } else { "plain" },
+                                        replica.iter().collect::<Vec<_>>(),
+                                        fin.iter().collect::<Vec<_>>()
+                                    ));
+                                }
+                            }
+                            if q.get() && !flag.woken() {
+                                // the vector is gone: a pending subscriber must have been woken by the drop
+                                return Err(format!("[C08|C14] subscriber {k} was Pending when the vector was dropped and its waker was never woken"));
+                            }
+                            std::thread::park_timeout(Duration::from_millis(1));
                         }
-                        if q.get() && !flag.woken() {
-                            // the vector is gone: a pending subscriber must have been woken by the drop
-                            return Err(format!("subscriber {k} was Pending when the vector was dropped and its waker was never woken"));
-                        }
-                        std::thread::park_timeout(Duration::from_millis(1));
-                    },
+                    }
                 }
             }
             clear_mode();
@@ -1864,6 +1898,10 @@ fn round_c08_threads(seed: u64, pm: u64) -> Result<(usize, usize), String> {
         }
     }
     let fin: Vector<u64> = (*ob).clone();
+    *fin_slot.lock().unwrap() = Some(fin.clone());
+    writer_done.set();
+    // leave the subscribers time to reach their quiescent Pending before the vector goes away
+    std::thread::sleep(Duration::from_micros(if small() { 0 } else { 400 }));
     drop(ob);
     clear_mode();
     quiesce.set();
@@ -1873,13 +1911,25 @@ fn round_c08_threads(seed: u64, pm: u64) -> Result<(usize, usize), String> {
         total += items;
         if replica != fin {
             return Err(format!(
-                "subscriber {k} ended with replica {:?} but the final contents are {:?}",
+                "[C06|C08] subscriber {k} ended with replica {:?} but the final contents are {:?}",
                 replica.iter().collect::<Vec<_>>(),
                 fin.iter().collect::<Vec<_>>()
             ));
         }
     }
     Ok((total + ops, n_subs + 1))
+}
+
+pub fn run_c06(p: &Params) -> Outcome {
+    let mut out = Outcome::default();
+    if want(p, "seq") {
+        out.merge(crate::runners_vec::run_c06(p));
+    }
+    if want(p, "threads") {
+        // lag that starts while a subscriber is inside poll_next is only reachable across threads
+        out.merge(run_rounds("C06", p, "c06-threads", p.n(2_500, 60_000), round_c08_threads));
+    }
+    out
 }
 
 pub fn run_c08(p: &Params) -> Outcome {
